@@ -9,18 +9,35 @@
 //     fft(s)[2k+1] = fft(evens(s))[k] - tw[k] * fft(odds(s))[k]
 // (outputs in the bit-reversed order that FftInputs::permute - unit fftv - undoes) - and leaves every other position
 // untouched. No unwinding bound, no size bound.
-// Not decided here: that `fft` equals the discrete Fourier transform when tw[k] = w^bitrev(k) in a field (a property of
-// the specification function, not of code; the bounded stand-in fft_native compares the real transforms with direct
-// evaluation); the array-of-columns implementation of butterfly / butterfly_twiddle ([[E; N]]).
+// Session 5: the recursion IS the discrete Fourier transform. theorem_fft_is_dft proves, for every power-of-two size, that with
+// twiddles tw[k] == w^bitrev(k) and w^(n/2) == -1 output p of `fft` equals sum_i s[i] * w^(i * bitrev(p)) - relative to the
+// module laws `laws()` (E a module over the commutative ring B, x - y == x + (-1) * y), which are a HYPOTHESIS of the theorem and
+// of the contracts below, not an axiom. On top of it, from bodies cut out of /repo:
+//   evaluate_poly        result[t] == sum_i p[i] * w^(i*t)  (the polynomial evaluated at w^t, natural order)
+//   get_twiddles         the table is w^bitrev(k), w = get_root_of_unity(log2 n), and w^(n/2) == -1
+//   get_inv_twiddles     the same for w^(n-1); (w^(n-1))^(n/2) == -1
+//   interpolate_poly     result[t] == (1/n) * sum_i v[i] * w^(i*t) with the inverse table (the inverse-transform formula)
+//   butterfly / butterfly_twiddle of the slice implementation (no longer assumed)
+// Not decided here: that the inverse-transform formula inverts evaluation (orthogonality of the roots of unity - needs a
+// field, not a ring), the offset / blowup variants (closure / chunks_mut / zip bodies), the array-of-columns implementation
+// of butterfly / butterfly_twiddle ([[E; N]]); the bounded stand-in fft_native compares all of them with direct evaluation.
 // Literal rewrites (stated in coverage.extraction): `for offset in offset..(offset + count) {` gets its bounds hoisted into
 // two `let`s (the loop variable shadows the parameter the bounds are computed from, which the installed Verus mis-scopes in its
 // automatic range invariant); the iterator-adapter loop header
 // `for (i, offset) in (offset..last_offset).step_by(2 * stride).enumerate().skip(1) {` becomes
 // `for i in 1..(size / 2) { let offset = offset + i * (2 * stride);` (same index / offset pairs, the installed Verus has no
-// step_by / enumerate / skip); `debug_assert_eq!(a, b)` becomes `debug_assert!(a == b)`.
-// Assumed: usize::is_power_of_two(x) == is_p2(x) (assume_specification); the element-level effect of butterfly /
-// butterfly_twiddle on a slice (their three-line bodies are restated as the specification of external_body functions).
+// step_by / enumerate / skip); `debug_assert_eq!(a, b)` becomes `debug_assert!(a == b)`; a runtime `assert!(c, "..")` becomes
+// `if !(c) { must_not_panic(); }` with `must_not_panic` requiring false (the assertion is PROVED never to fire under the
+// stated pre-condition); `self[` becomes `self.v[` (the receiver is the slice itself in the source); `B::TWO_ADICITY` becomes a
+// call that returns an uninterpreted value; `.into()` conversions from u32 become named conversion functions.
+// Assumed (all listed in trusted_base): usize::is_power_of_two(x) == is_p2(x), usize::ilog2 == floor log2
+// (assume_specification); permute_index's contract incl. the bit-reversal recurrence (ax_pidx; proved by Kani for every
+// power-of-two size: fft_permute_index_contract, fft_permute_index_recurrence_contract); FftInputs::permute's contract (proved
+// in unit fftv); get_root_of_unity's contract r^(2^(n-1)) == -1 and exp's contract (proved for the three real fields under
+// C07); get_power_series returns b^i (macro body; its worker fill_power_series is proved in unit polyv); shift_by multiplies
+// every element (iter_mut body); B::inv / conversions from u32 are uninterpreted.
 use vstd::prelude::*;
+use vstd::std_specs::ops::*;
 verus! {
 global size_of usize == 8;
 
@@ -31,6 +48,23 @@ pub struct B(pub u64);
 pub uninterp spec fn add_of(a: E, b: E) -> E;
 pub uninterp spec fn sub_of(a: E, b: E) -> E;
 pub uninterp spec fn mulb_of(a: E, b: B) -> E;
+
+impl AddSpecImpl<E> for E {
+    open spec fn obeys_add_spec() -> bool { true }
+    open spec fn add_req(self, rhs: E) -> bool { true }
+    open spec fn add_spec(self, rhs: E) -> E { add_of(self, rhs) }
+}
+impl core::ops::Add for E { type Output = Self; #[verifier::external_body] fn add(self, rhs: Self) -> Self { unimplemented!() } }
+impl SubSpecImpl<E> for E {
+    open spec fn obeys_sub_spec() -> bool { true }
+    open spec fn sub_req(self, rhs: E) -> bool { true }
+    open spec fn sub_spec(self, rhs: E) -> E { sub_of(self, rhs) }
+}
+impl core::ops::Sub for E { type Output = Self; #[verifier::external_body] fn sub(self, rhs: Self) -> Self { unimplemented!() } }
+impl E {
+    #[verifier::external_body]
+    pub fn mul_base(self, b: B) -> (r: E) ensures r == mulb_of(self, b) { unimplemented!() }
+}
 
 pub const MAX_LOOP: usize = /*@@expr source="math/src/fft/fft_inputs.rs" anchor="const MAX_LOOP: usize ="*/;
 
@@ -48,23 +82,30 @@ pub type I = Inputs;
 impl Inputs {
     pub fn len(&self) -> (r: usize) ensures r == self.v.len() { self.v.len() }
 
-    // impl<E: FieldElement> FftInputs<E> for [E]:  temp = self[i]; self[i] = temp + self[j]; self[j] = temp - self[j];
-    #[verifier::external_body]
-    pub fn butterfly(values: &mut Inputs, offset: usize, stride: usize)
-        requires offset + stride < old(values).v.len()
-        ensures final(values).v@ == old(values).v@
-            .update(offset as int, add_of(old(values).v@[offset as int], old(values).v@[offset + stride]))
-            .update(offset + stride, sub_of(old(values).v@[offset as int], old(values).v@[offset + stride]))
-    { unimplemented!() }
+    // impl<E: FieldElement> FftInputs<E> for [E] - the slice implementation every serial transform uses; the receiver
+    // `self` is the slice itself in the source, the vector inside the wrapper here (rewrite `self[` => `self.v[`)
+    //@@ source math/src/fft/fft_inputs.rs
+    //@@ extract anchor="fn butterfly(&mut self, offset: usize, stride: usize)" within="impl<E: FieldElement> FftInputs<E> for [E]"
+    //@@ rewrite "self[" => "self.v["
+    pub fn butterfly(&mut self, offset: usize, stride: usize)
+        requires offset + stride < old(self).v.len(), stride >= 1
+        ensures final(self).v@ == old(self).v@
+            .update(offset as int, add_of(old(self).v@[offset as int], old(self).v@[offset + stride]))
+            .update(offset + stride, sub_of(old(self).v@[offset as int], old(self).v@[offset + stride]))
+    {
+        /*@@body*/
+    }
 
-    // temp = self[i]; self[j] = self[j].mul_base(twiddle); self[i] = temp + self[j]; self[j] = temp - self[j];
-    #[verifier::external_body]
-    pub fn butterfly_twiddle(values: &mut Inputs, twiddle: B, offset: usize, stride: usize)
-        requires offset + stride < old(values).v.len()
-        ensures final(values).v@ == old(values).v@
-            .update(offset as int, add_of(old(values).v@[offset as int], mulb_of(old(values).v@[offset + stride], twiddle)))
-            .update(offset + stride, sub_of(old(values).v@[offset as int], mulb_of(old(values).v@[offset + stride], twiddle)))
-    { unimplemented!() }
+    //@@ extract anchor="fn butterfly_twiddle(&mut self, twiddle: E::BaseField, offset: usize, stride: usize)" within="impl<E: FieldElement> FftInputs<E> for [E]"
+    //@@ rewrite "self[" => "self.v["
+    pub fn butterfly_twiddle(&mut self, twiddle: B, offset: usize, stride: usize)
+        requires offset + stride < old(self).v.len(), stride >= 1
+        ensures final(self).v@ == old(self).v@
+            .update(offset as int, add_of(old(self).v@[offset as int], mulb_of(old(self).v@[offset + stride], twiddle)))
+            .update(offset + stride, sub_of(old(self).v@[offset as int], mulb_of(old(self).v@[offset + stride], twiddle)))
+    {
+        /*@@body*/
+    }
 }
 
 // ---------------------------------------------------------------------------------------------------------------------
@@ -455,9 +496,330 @@ impl Inputs {
 }
 
 
+// =====================================================================================================================
+// the recursion is the discrete Fourier transform
+pub uninterp spec fn zero_e() -> E;
+pub uninterp spec fn mul_b(a: B, b: B) -> B;
+pub uninterp spec fn one_b() -> B;
+pub uninterp spec fn neg_one_b() -> B;
+
+// the algebraic laws the theorem is relative to (a hypothesis of every lemma below, not an axiom): E is a module over the
+// commutative ring B, subtraction is addition of the (-1)-multiple
+#[verifier::opaque]
+pub open spec fn laws() -> bool {
+    &&& forall|a: E, b: E, c: E| add_of(add_of(a, b), c) == add_of(a, add_of(b, c))
+    &&& forall|a: E, b: E| add_of(a, b) == add_of(b, a)
+    &&& forall|a: E| add_of(zero_e(), a) == a
+    &&& forall|x: E, y: E, a: B| #[trigger] mulb_of(add_of(x, y), a) == add_of(mulb_of(x, a), mulb_of(y, a))
+    &&& forall|x: E, a: B, b: B| mulb_of(mulb_of(x, a), b) == mulb_of(x, mul_b(a, b))
+    &&& forall|x: E| mulb_of(x, one_b()) == x
+    &&& forall|a: B| mulb_of(zero_e(), a) == zero_e()
+    &&& forall|x: E, y: E| #[trigger] sub_of(x, y) == add_of(x, mulb_of(y, neg_one_b()))
+    &&& forall|a: B, b: B, c: B| mul_b(mul_b(a, b), c) == mul_b(a, mul_b(b, c))
+    &&& forall|a: B| mul_b(a, one_b()) == a
+    &&& forall|a: B| mul_b(one_b(), a) == a
+    &&& mul_b(neg_one_b(), neg_one_b()) == one_b()
+}
+proof fn l_add_assoc(a: E, b: E, c: E) requires laws() ensures add_of(add_of(a, b), c) == add_of(a, add_of(b, c)) { reveal(laws); }
+proof fn l_add_comm(a: E, b: E) requires laws() ensures add_of(a, b) == add_of(b, a) { reveal(laws); }
+proof fn l_add_zero(a: E) requires laws() ensures add_of(zero_e(), a) == a { reveal(laws); }
+proof fn l_distr(x: E, y: E, a: B) requires laws() ensures mulb_of(add_of(x, y), a) == add_of(mulb_of(x, a), mulb_of(y, a)) { reveal(laws); }
+proof fn l_mulb_mulb(x: E, a: B, b: B) requires laws() ensures mulb_of(mulb_of(x, a), b) == mulb_of(x, mul_b(a, b)) { reveal(laws); }
+proof fn l_mulb_one(x: E) requires laws() ensures mulb_of(x, one_b()) == x { reveal(laws); }
+proof fn l_mulb_zero(a: B) requires laws() ensures mulb_of(zero_e(), a) == zero_e() { reveal(laws); }
+proof fn l_sub(x: E, y: E) requires laws() ensures sub_of(x, y) == add_of(x, mulb_of(y, neg_one_b())) { reveal(laws); }
+proof fn l_mul_assoc(a: B, b: B, c: B) requires laws() ensures mul_b(mul_b(a, b), c) == mul_b(a, mul_b(b, c)) { reveal(laws); }
+proof fn l_mul_one_r(a: B) requires laws() ensures mul_b(a, one_b()) == a { reveal(laws); }
+proof fn l_mul_one_l(a: B) requires laws() ensures mul_b(one_b(), a) == a { reveal(laws); }
+proof fn l_neg_sq() requires laws() ensures mul_b(neg_one_b(), neg_one_b()) == one_b() { reveal(laws); }
+
+// ((a + b) + c) + d == (a + c) + (b + d)
+proof fn l_add4(a: E, b: E, c: E, d: E)
+    requires laws()
+    ensures add_of(add_of(add_of(a, b), c), d) == add_of(add_of(a, c), add_of(b, d))
+{
+    l_add_assoc(a, b, c);          // (a+b)+c == a+(b+c)
+    l_add_comm(b, c);              // b+c == c+b
+    l_add_assoc(a, c, b);          // (a+c)+b == a+(c+b)
+    l_add_assoc(add_of(a, c), b, d);
+}
+
+pub open spec fn pw(w: B, e: nat) -> B
+    decreases e
+{
+    if e == 0 { one_b() } else { mul_b(pw(w, (e - 1) as nat), w) }
+}
+
+proof fn l_pw_add(w: B, a: nat, b: nat)
+    requires laws()
+    ensures pw(w, a + b) == mul_b(pw(w, a), pw(w, b))
+    decreases b
+{
+    if b == 0 {
+        l_mul_one_r(pw(w, a));
+    } else {
+        l_pw_add(w, a, (b - 1) as nat);
+        assert(pw(w, a + b) == mul_b(pw(w, (a + b - 1) as nat), w));
+        l_mul_assoc(pw(w, a), pw(w, (b - 1) as nat), w);
+    }
+}
+
+proof fn l_pw_one(e: nat)
+    requires laws()
+    ensures pw(one_b(), e) == one_b()
+    decreases e
+{
+    if e > 0 { l_pw_one((e - 1) as nat); l_mul_one_r(pw(one_b(), (e - 1) as nat)); }
+}
+
+proof fn l_pw_1(w: B)
+    requires laws()
+    ensures pw(w, 1) == w
+{
+    assert(pw(w, 1) == mul_b(pw(w, 0), w));
+    l_mul_one_l(w);
+}
+
+proof fn l_pw_mul(w: B, a: nat, b: nat)
+    requires laws()
+    ensures pw(pw(w, a), b) == pw(w, a * b)
+    decreases b
+{
+    if b == 0 {
+        assert(a * b == 0) by (nonlinear_arith) requires b == 0;
+    } else {
+        l_pw_mul(w, a, (b - 1) as nat);
+        assert(a * b == a * (b - 1) + a) by (nonlinear_arith) requires b >= 1;
+        assert(a * (b - 1) >= 0) by (nonlinear_arith) requires b >= 1, a >= 0;
+        l_pw_add(w, (a * (b - 1)) as nat, a);
+        assert(pw(pw(w, a), b) == mul_b(pw(pw(w, a), (b - 1) as nat), pw(w, a)));
+    }
+}
+
+// the discrete Fourier transform: dft(s, w, j) = sum over i < len of s[i] * w^(i * j)  ( = s evaluated at w^j )
+pub open spec fn term(s: Seq<E>, w: B, j: nat, i: int) -> E { mulb_of(s[i], pw(w, (i * j) as nat)) }
+pub open spec fn sum(s: Seq<E>, w: B, j: nat, t: nat) -> E
+    decreases t
+{
+    if t == 0 { zero_e() } else { add_of(sum(s, w, j, (t - 1) as nat), term(s, w, j, t - 1)) }
+}
+pub open spec fn dft(s: Seq<E>, w: B, j: nat) -> E { sum(s, w, j, s.len()) }
+
+// splitting the sum into even and odd positions
+proof fn l_split(s: Seq<E>, w: B, jj: nat, t: nat)
+    requires laws(), s.len() % 2 == 0, 2 * t <= s.len()
+    ensures sum(s, w, jj, 2 * t) == add_of(sum(evens(s), pw(w, 2), jj, t), mulb_of(sum(odds(s), pw(w, 2), jj, t), pw(w, jj)))
+    decreases t
+{
+    let e = evens(s);
+    let o = odds(s);
+    let w2 = pw(w, 2);
+    let wj = pw(w, jj);
+    if t == 0 {
+        l_mulb_zero(wj);
+        l_add_zero(zero_e());
+    } else {
+        let t1: int = t - 1;
+        l_split(s, w, jj, t1 as nat);
+        let se = sum(e, w2, jj, t1 as nat);
+        let so = sum(o, w2, jj, t1 as nat);
+        let te = term(e, w2, jj, t1);
+        let to = term(o, w2, jj, t1);
+        assert(t1 * jj >= 0) by (nonlinear_arith) requires t1 >= 0, jj >= 0;
+        let ex = (t1 * jj) as nat;
+        // even term
+        assert(term(s, w, jj, 2 * t1) == te) by {
+            l_pw_mul(w, 2, ex);
+            assert((2 * t1) * jj == 2 * ex) by (nonlinear_arith) requires ex == t1 * jj;
+            assert(e[t1] == s[2 * t1]);
+        }
+        // odd term
+        assert(term(s, w, jj, 2 * t1 + 1) == mulb_of(to, wj)) by {
+            l_pw_mul(w, 2, ex);
+            assert((2 * t1 + 1) * jj == 2 * ex + jj) by (nonlinear_arith) requires ex == t1 * jj;
+            l_pw_add(w, 2 * ex, jj);
+            l_mulb_mulb(o[t1], pw(w2, ex), wj);
+            assert(o[t1] == s[2 * t1 + 1]);
+        }
+        assert(sum(s, w, jj, 2 * t) == add_of(sum(s, w, jj, (2 * t - 1) as nat), term(s, w, jj, 2 * t - 1)));
+        assert(sum(s, w, jj, (2 * t - 1) as nat) == add_of(sum(s, w, jj, (2 * t - 2) as nat), term(s, w, jj, 2 * t - 2)));
+        // ((se + so*wj) + te) + to*wj == (se + te) + (so*wj + to*wj)
+        l_add4(se, mulb_of(so, wj), te, mulb_of(to, wj));
+        l_distr(so, to, wj);
+    }
+}
+
+// periodicity: if w^h == 1 the sum with exponent j + h equals the sum with exponent j
+proof fn l_period(s: Seq<E>, w: B, j: nat, h: nat, t: nat)
+    requires laws(), pw(w, h) == one_b(), t <= s.len()
+    ensures sum(s, w, j + h, t) == sum(s, w, j, t)
+    decreases t
+{
+    if t > 0 {
+        let t1 = (t - 1) as nat;
+        l_period(s, w, j, h, t1);
+        assert(t1 * (j + h) == t1 * j + h * t1) by (nonlinear_arith);
+        assert(t1 * j >= 0 && h * t1 >= 0) by (nonlinear_arith) requires t1 >= 0, j >= 0, h >= 0;
+        l_pw_add(w, (t1 * j) as nat, (h * t1) as nat);
+        l_pw_mul(w, h, t1);
+        l_pw_one(t1);
+        l_mul_one_r(pw(w, (t1 * j) as nat));
+    }
+}
+
+pub open spec fn bitrev(n: int, p: int) -> int
+    decreases n
+{
+    if n <= 1 { 0 } else { (p % 2) * (n / 2) + bitrev(n / 2, p / 2) }
+}
+
+proof fn l_bitrev_range(n: int, p: int)
+    requires is_p2(n), 0 <= p < n
+    ensures 0 <= bitrev(n, p) < n
+    decreases n
+{
+    if n > 1 {
+        l_bitrev_range(n / 2, p / 2);
+        assert((p % 2) * (n / 2) == 0 || (p % 2) * (n / 2) == n / 2) by (nonlinear_arith) requires p % 2 == 0 || p % 2 == 1;
+    }
+}
+
+proof fn l_bitrev_double(m: int, k: int)
+    requires is_p2(m), 0 <= k < m
+    ensures bitrev(2 * m, k) == 2 * bitrev(m, k)
+    decreases m
+{
+    if m == 1 {
+        assert(bitrev(2, 0) == 0 + bitrev(1, 0));
+    } else {
+        l_bitrev_double(m / 2, k / 2);
+        assert(bitrev(2 * m, k) == (k % 2) * m + bitrev(m, k / 2));
+        assert(bitrev(m, k / 2) == 2 * bitrev(m / 2, k / 2));
+        assert(bitrev(m, k) == (k % 2) * (m / 2) + bitrev(m / 2, k / 2));
+        assert((k % 2) * m == 2 * ((k % 2) * (m / 2))) by (nonlinear_arith) requires m % 2 == 0;
+    }
+}
+
+pub open spec fn tw_ok(tw: Seq<B>, w: B, n: int) -> bool {
+    &&& tw.len() >= n / 2
+    &&& forall|k: int| 0 <= k < n / 2 ==> #[trigger] tw[k] == pw(w, bitrev(n / 2, k) as nat)
+    &&& n >= 2 ==> pw(w, (n / 2) as nat) == neg_one_b()
+}
+
+// THEOREM: with twiddles tw[k] == w^bitrev(n/2, k) and w^(n/2) == -1, output p of the recursion is the polynomial with
+// coefficients s evaluated at w^bitrev(n, p)
+pub proof fn theorem_fft_is_dft(s: Seq<E>, tw: Seq<B>, w: B, n: int)
+    requires laws(), is_p2(n), s.len() == n, tw_ok(tw, w, n)
+    ensures
+        fft(s, tw).len() == n,
+        forall|p: int| 0 <= p < n ==> #[trigger] fft(s, tw)[p] == dft(s, w, bitrev(n, p) as nat),
+    decreases n
+{
+    if n == 1 {
+        assert(bitrev(1, 0) == 0);
+        assert(dft(s, w, 0) == add_of(sum(s, w, 0, 0), term(s, w, 0, 0)));
+        l_add_zero(term(s, w, 0, 0));
+        l_mulb_one(s[0]);
+        assert(0 * 0 == 0);
+    } else {
+        let h = n / 2;
+        let e = evens(s);
+        let o = odds(s);
+        let w2 = pw(w, 2);
+        lemma_p2_halfany(n);
+        // hypotheses for the two half-size transforms
+        assert(tw_ok(tw, w2, h)) by {
+            lemma_p2_halfany(n);
+            if h >= 2 {
+                lemma_p2_halfany(h);
+                assert(is_p2(h) && h % 2 == 0);
+                l_pw_mul(w, 2, (h / 2) as nat);
+                assert(2 * (h / 2) == h);
+                assert forall|k: int| 0 <= k < h / 2 implies #[trigger] tw[k] == pw(w2, bitrev(h / 2, k) as nat) by {
+                    l_bitrev_double(h / 2, k);
+                    l_bitrev_range(h / 2, k);
+                    l_pw_mul(w, 2, bitrev(h / 2, k) as nat);
+                    assert(tw[k] == pw(w, bitrev(h, k) as nat));
+                }
+            } else {
+                assert(h / 2 == 0);
+            }
+        }
+        theorem_fft_is_dft(e, tw, w2, h);
+        theorem_fft_is_dft(o, tw, w2, h);
+        let fe = fft(e, tw);
+        let fo = fft(o, tw);
+        // w2^h == 1
+        assert(pw(w2, h as nat) == one_b()) by {
+            l_pw_mul(w, 2, h as nat);
+            l_pw_add(w, h as nat, h as nat);
+            l_neg_sq();
+        }
+        assert forall|p: int| 0 <= p < n implies #[trigger] fft(s, tw)[p] == dft(s, w, bitrev(n, p) as nat) by {
+            let k = p / 2;
+            l_bitrev_range(h, k);
+            let j = bitrev(h, k) as nat;
+            let wj = pw(w, j);
+            assert(fe[k] == dft(e, w2, j));
+            assert(fo[k] == dft(o, w2, j));
+            let t = if k == 0 { fo[0] } else { mulb_of(fo[k], tw[k]) };
+            assert(t == mulb_of(fo[k], wj)) by {
+                if k == 0 {
+                    assert(bitrev(h, 0) == 0) by { l_bitrev_zero(h); }
+                    l_mulb_one(fo[0]);
+                }
+            }
+            assert(fft(s, tw)[p] == comb(fe, fo, tw, p));
+            if p % 2 == 0 {
+                assert(bitrev(n, p) == j) by { assert((p % 2) * h == 0); }
+                l_split(s, w, j, h as nat);
+            } else {
+                assert(bitrev(n, p) == h + j) by { assert((p % 2) * h == h) by (nonlinear_arith) requires p % 2 == 1; }
+                l_split(s, w, j + h as nat, h as nat);
+                l_period(e, w2, j, h as nat, h as nat);
+                l_period(o, w2, j, h as nat, h as nat);
+                l_pw_add(w, j, h as nat);
+                l_mulb_mulb(fo[k], wj, neg_one_b());
+                l_sub(fe[k], mulb_of(fo[k], wj));
+            }
+        }
+    }
+}
+
+proof fn l_bitrev_zero(n: int)
+    requires is_p2(n)
+    ensures bitrev(n, 0) == 0
+    decreases n
+{
+    if n > 1 { l_bitrev_zero(n / 2); assert(0int % 2 == 0); assert((0int % 2) * (n / 2) == 0); }
+}
+
+
+// ---------------------------------------------------------------------------------------------------------------------
+// the permutation index is the bit reversal `bitrev`. Cross-engine assumption: the contract of math/src/fft/mod.rs
+// permute_index proved by Kani on the real function for every power-of-two size (fft_permute_index_contract: range and
+// involution; fft_permute_index_recurrence_contract: the recurrence on the lowest bit)
+pub uninterp spec fn pidx(n: int, i: int) -> int;
+#[verifier::external_body]
+pub proof fn ax_pidx(n: int, i: int)
+    requires is_p2(n), 0 <= i < n
+    ensures
+        0 <= pidx(n, i) < n,
+        pidx(n, pidx(n, i)) == i,
+        pidx(n, i) == (if n == 1 { 0 } else { (i % 2) * (n / 2) + pidx(n / 2, i / 2) }),
+{}
+
+proof fn l_pidx_is_bitrev(n: int, i: int)
+    requires is_p2(n), 0 <= i < n
+    ensures pidx(n, i) == bitrev(n, i)
+    decreases n
+{
+    ax_pidx(n, i);
+    if n > 1 { l_pidx_is_bitrev(n / 2, i / 2); }
+}
+
 // math/src/fft/serial.rs evaluate_poly: the network followed by the bit-reversal permutation (whose contract is proved in
 // unit fftv against permute_index's Kani-proved contract; restated here as the specification of an external_body method)
-pub uninterp spec fn pidx(n: int, i: int) -> int;
 impl Inputs {
     #[verifier::external_body]
     pub fn permute(&mut self)
@@ -476,8 +838,235 @@ pub fn evaluate_poly(p: &mut Inputs, twiddles: &[B])
     ensures
         final(p).v.len() == old(p).v.len(),
         forall|t: int| 0 <= t < old(p).v.len() ==> #[trigger] final(p).v@[t] == fft(old(p).v@, twiddles@)[pidx(old(p).v.len() as int, t)],
+        // THE PROPERTY for the unshifted transform: whenever the element / twiddle operations obey the module laws and the table
+        // holds the powers of a primitive root w in bit-reversed order (what get_twiddles builds, below), position t
+        // of the result is the polynomial evaluated at w^t - natural order, every power-of-two size
+        forall|w: B| laws() && #[trigger] tw_ok(twiddles@, w, old(p).v.len() as int) ==>
+            (forall|t: int| 0 <= t < old(p).v.len() ==> #[trigger] final(p).v@[t] == dft(old(p).v@, w, t as nat)),
 {
+    let ghost s = p.v@;
+    let ghost n = p.v.len() as int;
     /*@@body*/
+    proof {
+        assert forall|w: B| laws() && #[trigger] tw_ok(twiddles@, w, n) implies
+            (forall|t: int| 0 <= t < n ==> #[trigger] p.v@[t] == dft(s, w, t as nat)) by {
+            theorem_fft_is_dft(s, twiddles@, w, n);
+            assert forall|t: int| 0 <= t < n implies #[trigger] p.v@[t] == dft(s, w, t as nat) by {
+                ax_pidx(n, t);
+                l_pidx_is_bitrev(n, pidx(n, t));
+                l_pidx_is_bitrev(n, t);
+                assert(p.v@[t] == fft(s, twiddles@)[pidx(n, t)]);
+            }
+        }
+    }
+}
+
+// ---------------------------------------------------------------------------------------------------------------------
+// math/src/fft/mod.rs get_twiddles: the table handed to the network holds w^bitrev(k) with w the 2^k-th root of unity
+pub open spec fn log2f(n: int) -> int
+    decreases n
+{
+    if n <= 1 { 0 } else { 1 + log2f(n / 2) }
+}
+pub assume_specification [usize::ilog2] (x: usize) -> (r: u32)
+    requires x > 0
+    ensures r == log2f(x as int);
+pub uninterp spec fn root_spec(n: int) -> B;
+pub uninterp spec fn two_adicity_spec() -> int;
+pub open spec fn p2(e: int) -> int
+    decreases e
+{
+    if e <= 0 { 1 } else { 2 * p2(e - 1) }
+}
+proof fn l_p2_log(m: int)
+    requires is_p2(m), m >= 2
+    ensures p2(log2f(m) - 1) == m / 2, log2f(m) >= 1
+    decreases m
+{
+    if m > 2 {
+        l_p2_log(m / 2);
+    } else {
+        assert(log2f(2) == 1 + log2f(1));
+        assert(p2(0) == 1);
+    }
+}
+impl B {
+    // B::TWO_ADICITY (an associated constant of the abstract field)
+    #[verifier::external_body]
+    pub fn two_adicity() -> (r: u32) ensures r == two_adicity_spec() { unimplemented!() }
+    // contract of StarkField::get_root_of_unity proved for the three real fields under C07 (units f64 / f62 / f128e):
+    // r^(2^(n-1)) == -1
+    #[verifier::external_body]
+    pub fn get_root_of_unity(n: u32) -> (r: B)
+        requires 1 <= n <= two_adicity_spec()
+        ensures r == root_spec(n as int), pw(r, p2(n - 1) as nat) == neg_one_b()
+    { unimplemented!() }
+}
+// contract of utils::get_power_series (macro body - batch_iter_mut! - outside Verus; its worker fill_power_series is proved
+// in unit polyv, the whole function is compared with explicit powers by the stand-in poly_native): ASSUMED here
+#[verifier::external_body]
+pub fn get_power_series(b: B, n: usize) -> (r: Vec<B>)
+    ensures r.len() == n, forall|i: int| 0 <= i < n ==> #[trigger] r@[i] == pw(b, i as nat)
+{ unimplemented!() }
+// contract of fft::permute (dispatch to FftInputs::permute, proved in unit fftv for every element type)
+#[verifier::external_body]
+pub fn permute(v: &mut Vec<B>)
+    ensures
+        final(v).len() == old(v).len(),
+        forall|t: int| 0 <= t < old(v).len() ==> #[trigger] final(v)@[t] == old(v)@[pidx(old(v).len() as int, t)],
+{ unimplemented!() }
+
+// a runtime `assert!(c, "..")` of the source becomes `if !(c) { must_not_panic(); }`: the call is only admissible where it is unreachable
+#[verifier::external_body]
+pub fn must_not_panic() requires false { unimplemented!() }
+
+proof fn l_p2_pos(e: int) ensures p2(e) >= 1 decreases e { if e > 0 { l_p2_pos(e - 1); } }
+
+//@@ source math/src/fft/mod.rs
+//@@ extract anchor="pub fn get_twiddles<B>(domain_size: usize) -> Vec<B>"
+//@@ rewrite-re "assert!\(([^,]+),[^;]*\);" => "if !(\1) { must_not_panic(); }"
+//@@ rewrite "B::TWO_ADICITY" => "B::two_adicity()"
+//@@ tail
+//@@|    proof {
+//@@|        let h = (domain_size / 2) as int;
+//@@|        assert forall|k: int| 0 <= k < h implies #[trigger] twiddles@[k] == pw(root, bitrev(h, k) as nat) by {
+//@@|            l_pidx_is_bitrev(h, k);
+//@@|            ax_pidx(h, k);
+//@@|        }
+//@@|    }
+pub fn get_twiddles(domain_size: usize) -> (r: Vec<B>)
+    requires
+        is_p2(domain_size as int), domain_size >= 2, log2f(domain_size as int) <= two_adicity_spec(),
+    ensures
+        r.len() == domain_size / 2,
+        tw_ok(r@, root_spec(log2f(domain_size as int)), domain_size as int),
+{
+    proof { l_p2_log(domain_size as int); lemma_p2_halfany(domain_size as int); }
+    /*@@body*/
+}
+
+proof fn lemma_p2_halfany(m: int)
+    requires is_p2(m), m >= 2
+    ensures is_p2(m / 2), m % 2 == 0
+{
+    reveal_with_fuel(is_p2, 2);
+}
+
+// ---------------------------------------------------------------------------------------------------------------------
+// math/src/fft/mod.rs get_inv_twiddles: the same table for the inverse root w^(n-1)
+proof fn l_pw_neg_odd(e: nat)
+    requires laws(), e % 2 == 1
+    ensures pw(neg_one_b(), e) == neg_one_b()
+    decreases e
+{
+    if e == 1 {
+        l_pw_1(neg_one_b());
+    } else {
+        l_pw_neg_odd((e - 2) as nat);
+        let x = pw(neg_one_b(), (e - 2) as nat);
+        assert(pw(neg_one_b(), e) == mul_b(pw(neg_one_b(), (e - 1) as nat), neg_one_b()));
+        assert(pw(neg_one_b(), (e - 1) as nat) == mul_b(x, neg_one_b()));
+        l_mul_assoc(x, neg_one_b(), neg_one_b());
+        l_neg_sq();
+        l_mul_one_r(x);
+    }
+}
+pub struct PI(pub u64);
+impl PI {
+    // `<u32 as Into<B::PositiveInteger>>::into`
+    #[verifier::external_body]
+    pub fn from_u32(x: u32) -> (r: PI) ensures r.0 == x { unimplemented!() }
+}
+impl B {
+    // contract of FieldElement::exp proved for the three real fields under C07: self^power
+    #[verifier::external_body]
+    pub fn exp(self, power: PI) -> (r: B) ensures r == pw(self, power.0 as nat) { unimplemented!() }
+}
+
+//@@ source math/src/fft/mod.rs
+//@@ extract anchor="pub fn get_inv_twiddles<B>(domain_size: usize) -> Vec<B>"
+//@@ rewrite-re "assert!\(([^,]+),[^;]*\);" => "if !(\1) { must_not_panic(); }"
+//@@ rewrite "B::TWO_ADICITY" => "B::two_adicity()"
+//@@ rewrite "(domain_size as u32 - 1).into()" => "PI::from_u32(domain_size as u32 - 1)"
+//@@ tail
+//@@|    proof {
+//@@|        let h = (domain_size / 2) as int;
+//@@|        let n = domain_size as int;
+//@@|        assert forall|k: int| 0 <= k < h implies #[trigger] inv_twiddles@[k] == pw(inv_root, bitrev(h, k) as nat) by {
+//@@|            l_pidx_is_bitrev(h, k);
+//@@|            ax_pidx(h, k);
+//@@|        }
+//@@|        if laws() {
+//@@|            // (root^(n-1))^(n/2) == (root^(n/2))^(n-1) == (-1)^(n-1) == -1
+//@@|            l_pw_mul(root, (n - 1) as nat, h as nat);
+//@@|            l_pw_mul(root, h as nat, (n - 1) as nat);
+//@@|            assert((n - 1) * h == h * (n - 1)) by (nonlinear_arith);
+//@@|            l_pw_neg_odd((n - 1) as nat);
+//@@|        }
+//@@|    }
+pub fn get_inv_twiddles(domain_size: usize) -> (r: Vec<B>)
+    requires
+        is_p2(domain_size as int), domain_size >= 2, log2f(domain_size as int) <= two_adicity_spec(), domain_size <= u32::MAX,
+    ensures
+        r.len() == domain_size / 2,
+        laws() ==> tw_ok(r@, pw(root_spec(log2f(domain_size as int)), (domain_size - 1) as nat), domain_size as int),
+{
+    proof { l_p2_log(domain_size as int); lemma_p2_halfany(domain_size as int); }
+    /*@@body*/
+}
+
+// ---------------------------------------------------------------------------------------------------------------------
+// math/src/fft/serial.rs interpolate_poly: network with the inverse table, scaling by 1/n, permutation
+pub uninterp spec fn inv_b(x: B) -> B;
+pub uninterp spec fn b_of_u32(x: u32) -> B;
+impl B {
+    #[verifier::external_body]
+    pub fn inv(x: B) -> (r: B) ensures r == inv_b(x) { unimplemented!() }
+    // `<u32 as Into<B>>::into`
+    #[verifier::external_body]
+    pub fn from_u32(x: u32) -> (r: B) ensures r == b_of_u32(x) { unimplemented!() }
+}
+impl Inputs {
+    // FftInputs::shift_by for [E] (`for d in self.iter_mut() { *d *= E::from(offset) }` - iter_mut is outside the installed
+    // Verus): ASSUMED to multiply every element by the base-field value
+    #[verifier::external_body]
+    pub fn shift_by(&mut self, offset: B)
+        ensures
+            final(self).v.len() == old(self).v.len(),
+            forall|t: int| 0 <= t < old(self).v.len() ==> #[trigger] final(self).v@[t] == mulb_of(old(self).v@[t], offset),
+    { unimplemented!() }
+}
+
+//@@ source math/src/fft/serial.rs
+//@@ extract anchor="pub fn interpolate_poly<B, E>(evaluations: &mut [E], inv_twiddles: &[B])"
+//@@ rewrite-re "assert!\(([^,]+),[^;]*\);" => "if !(\1) { must_not_panic(); }"
+//@@ rewrite "(evaluations.len() as u32).into()" => "B::from_u32(evaluations.len() as u32)"
+//@@ rewrite "evaluations.fft_in_place(inv_twiddles);" => "evaluations.fft_in_place_entry(inv_twiddles);"
+pub fn interpolate_poly(evaluations: &mut Inputs, inv_twiddles: &[B])
+    requires
+        is_p2(old(evaluations).v.len() as int), old(evaluations).v.len() >= 2, inv_twiddles.len() >= old(evaluations).v.len() / 2,
+        old(evaluations).v.len() <= u32::MAX,
+    ensures
+        final(evaluations).v.len() == old(evaluations).v.len(),
+        // the inverse-transform formula: with the table of the inverse root w, position t is (1/n) * sum_i v[i] * w^(i*t)
+        forall|w: B| laws() && #[trigger] tw_ok(inv_twiddles@, w, old(evaluations).v.len() as int) ==>
+            (forall|t: int| 0 <= t < old(evaluations).v.len() ==> #[trigger] final(evaluations).v@[t] ==
+                mulb_of(dft(old(evaluations).v@, w, t as nat), inv_b(b_of_u32(old(evaluations).v.len() as u32)))),
+{
+    let ghost s = evaluations.v@;
+    let ghost n = evaluations.v.len() as int;
+    /*@@body*/
+    proof {
+        assert forall|w: B| laws() && #[trigger] tw_ok(inv_twiddles@, w, n) implies
+            (forall|t: int| 0 <= t < n ==> #[trigger] evaluations.v@[t] == mulb_of(dft(s, w, t as nat), inv_b(b_of_u32(n as u32)))) by {
+            theorem_fft_is_dft(s, inv_twiddles@, w, n);
+            assert forall|t: int| 0 <= t < n implies #[trigger] evaluations.v@[t] == mulb_of(dft(s, w, t as nat), inv_b(b_of_u32(n as u32))) by {
+                ax_pidx(n, t);
+                l_pidx_is_bitrev(n, pidx(n, t));
+                l_pidx_is_bitrev(n, t);
+            }
+        }
+    }
 }
 
 proof fn fftcore_canary_must_fail(a: E, b: E)
